@@ -85,7 +85,14 @@ def gjk_distance_original(collider1, collider2):
                     collider2, solution.barycentric_coordinates[:len(simplex)],
                     simplex.indices_polytope2[:len(simplex)])
 
-                if simplex_is_tetrahedron:
+                # The tetrahedron only contains the origin if the point of
+                # minimum norm is the origin. The backup procedure also keeps
+                # four points of a degenerate (flat) tetrahedron far away from
+                # the origin.
+                origin_in_tetrahedron = simplex_is_tetrahedron and (
+                    new_solution.distance_squared <= EPSILON * np.max(
+                        np.diag(simplex.dot_product_table)[:4]))
+                if origin_in_tetrahedron:
                     # Make sure intersection has zero distance
                     closest_point1[:] = 0.5 * (closest_point1 + closest_point2)
                     closest_point2[:] = closest_point1
